@@ -6,9 +6,10 @@ from . import _nodecommon
 
 ID = "C06"
 SUITES = ["init", "node"]
-LEAN_MODULES = ["VpnCloud.Proofs.C06", "VpnCloud.Proofs.C02More"]
+LEAN_MODULES = ["VpnCloud.Proofs.C06", "VpnCloud.Proofs.C02More", "VpnCloud.Proofs.C06Config"]
 THEOREMS = ["VpnCloud.Proofs.C06." + n for n in ("select_spec", "selectRef_symm", "select_symm", "selectRef_perm", "plain_iff_both", "fail_iff_none_common", "selected_is_best", "selected_tiebreak")]
 THEOREMS = THEOREMS + ["VpnCloud.Proofs.C02More." + n for n in ('select_plain_iff_both', 'plain_only_if_both', 'session_plain_needs_peer_flag', 'responder_plain_needs_ping_flag', 'plain_peer_only_by_plain_handshake')]
+THEOREMS = THEOREMS + ["VpnCloud.Proofs.C06Config." + n for n in ('parse_plain_iff', 'parse_ciphers', 'parse_error_iff', 'parse_empty_is_default', 'parse_perm', 'parse_case_insensitive', 'plain_position_irrelevant', 'outcome_depends_on_sets_only', 'outcome_perm_respelled', 'unencrypted_iff', 'fails_iff', 'cipher_iff', 'decoded_list_determined_by_signed_region', 'tampered_list_fails')]
 BATCH = 20
 SEARCH_BUDGET_S = 400
 EXPECTED_CLASSES = ["ideliver:reply", "ideliver:init", "ideliver:err:crypto", "ideliver:err:parse", "ideliver:msg"]
